@@ -72,17 +72,23 @@ def cases(draw):
     if draw(st.integers(0, 3)) == 0:
         lhold = [draw(st.sampled_from(["answer", "answer", "caller"])) + "-" + str(draw(st.integers(0, k - 1))), draw(st.sampled_from(LINE_FUNCS)),
                  draw(st.integers(1, 6)), draw(st.sampled_from([0.001, 0.02, 0.3]))]
-    return {"k": k, "hbh": hbh, "apps": apps, "lhold": lhold, "perm": perm, "delays": delays, "extras": extras, "sched": sched, "hold": hold,
+    # fault: the hand-over to the worker process fails once for one caller (a manager proxy raises on a broken pipe); the caller
+    # simply sends the same request again
+    fault = draw(st.sampled_from([None, None, None, 0, k - 1]))
+    return {"k": k, "hbh": hbh, "apps": apps, "lhold": lhold, "fault": fault, "perm": perm, "delays": delays, "extras": extras, "sched": sched, "hold": hold,
             "lines": draw(st.booleans()) if sched else False, "stagger": draw(st.sampled_from([0.0, 0.0, 0.005]))}
 
 
 class Recorder:
     """stands in for the Diameter connection object behind the worker: records what leaves the worker"""
-    def __init__(self, config):
+    def __init__(self, config, sched=None, delay=0.0):
         self.config = config
         self.sent = []
+        self.sched, self.delay = sched, delay
 
     def send_message(self, msg):
+        if self.sched is not None and self.delay:
+            self.sched.point("sleep", pred=lambda: False, timeout=self.delay)        # a slow connection: the send takes virtual time
         self.sent.append(msg)
 
     def send_messages(self, msgs):
@@ -133,12 +139,33 @@ def run_one(case):
             for n, wk in zip(names, the_workers):
                 sched.spawn(wk.send_handler, "send_handler" if n == "s6a" else f"send_handler-{n}")
 
+            class FailOnce:
+                """the worker's hand-over lock as seen through a manager proxy whose pipe breaks once, for one thread"""
+                def __init__(self, real, victim):
+                    self.real, self.victim, self.done = real, victim, False
+
+                def acquire(self, *a, **kw):
+                    cur = sched.current
+                    if not self.done and cur is not None and cur.name == self.victim:
+                        self.done = True
+                        raise BrokenPipeError("manager proxy: broken pipe")
+                    return self.real.acquire(*a, **kw)
+
+                def __getattr__(self, name):
+                    return getattr(self.real, name)
+            if case.get("fault") is not None:
+                fw = the_workers[names.index(apps_of[case["fault"]])]
+                fw.send_lock = FailOnce(fw.send_lock, f"caller-{case['fault']}")
+
             def caller(i):
                 def run():
                     try:
                         if case["stagger"] and i:
                             bb.time.sleep(case["stagger"] * i)
-                        results[i] = ("ok", app.send_message(reqs[i]))
+                        try:
+                            results[i] = ("ok", app.send_message(reqs[i]))
+                        except BrokenPipeError:
+                            results[i] = ("ok", app.send_message(reqs[i]))           # the application retries the same request
                     except Killed:
                         raise
                     except (Exception,) + errors as e:
@@ -237,6 +264,8 @@ def _collect(shard, seed, n):
             f.add("zero-delay-answer")
         if case.get("hold") is not None:
             f.add("answer-handled-between-enqueue-and-registration")
+        if case.get("fault") is not None:
+            f.add("hand-over-failed-once-then-retried")
         if case.get("lhold") and info.get("holds_taken"):
             f.add("delayed-at-source-line-in-registry-code")
         if case["sched"] and any(case["sched"]):
@@ -259,7 +288,7 @@ def main(ctx):
         col.record(rec["case"], run_case(rec["case"]), nontrivial=True, classes=["replay"])
     ctx.required_classes = ["answer-handled-between-enqueue-and-registration", "non-identity-arrival", "zero-delay-answer", "prefix-with-switch", "preempted-at-source-line", "k=1", "k=4",
                             "extra=dup", "extra=unsolicited", "ids-differ-in-one-byte", "two-connections", "same-hop-by-hop-on-two-connections",
-                            "delayed-at-source-line-in-registry-code"]
+                            "delayed-at-source-line-in-registry-code", "hand-over-failed-once-then-retried"]
     ctx.assumptions = ["in-process Worker with shim primitives instead of multiprocessing proxies; the worker's real send_handler loop runs as a "
                        "controlled thread; 'always wakes' is bounded liveness: 20 virtual seconds under fair completion",
                        "schedules are sampled (random walk / PCT-like prefixes, optional line preemption)"]
